@@ -10,7 +10,7 @@ set_option linter.unusedSectionVars false
 namespace Unyt.C03
 open Unyt
 
-variable {K : Type} [Lean.Grind.Field K] [BEq K] [LawfulBEq K]
+variable {K : Type} [Lean.Grind.Field K] [BEq K] [LawfulBEq K] [RPow K]
 
 /-- a successful in-place conversion: the label is the target and the SI magnitude is kept -/
 theorem convertToUnits_ok (pre : Prefixes K) (t : Lut K) (st : K × UnitV K) (tg : UnitV K)
@@ -26,10 +26,10 @@ theorem convertToUnits_ok (pre : Prefixes K) (t : Lut K) (st : K × UnitV K) (tg
   rw [← hd']
   exact conv_preserves_base _ _ _ _ _ hs
 
-theorem runHist_append (pre : Prefixes K) (t : Lut K) (st : K × UnitV K) (a b : List (HOp K)) :
-    runHist pre t st (a ++ b)
-      = ((runHist pre t (runHist pre t st a).1 b).1,
-         (runHist pre t st a).2 ++ (runHist pre t (runHist pre t st a).1 b).2) := by
+theorem runHist_append (pre : Prefixes K) (t : Lut K) (T : EmTable K) (st : K × UnitV K) (a b : List (HOp K)) :
+    runHist pre t T st (a ++ b)
+      = ((runHist pre t T (runHist pre t T st a).1 b).1,
+         (runHist pre t T st a).2 ++ (runHist pre t T (runHist pre t T st a).1 b).2) := by
   induction a generalizing st with
   | nil => simp [runHist]
   | cons op ops ih => simp [runHist, ih]
